@@ -18,11 +18,12 @@ import (
 	"time"
 
 	"verif/harness/internal/hctx"
+	"verif/harness/props/c15"
 )
 
 type Ctx = hctx.Ctx
 
-var props = map[string]func(*Ctx){}
+var props = map[string]func(*Ctx){"C15": c15.Run}
 
 func main() {
 	prop := flag.String("prop", "", "property id")
